@@ -5,7 +5,7 @@ from ..hexsys import HexSys
 
 def run_hex(rep, name, **kw):
     explore_kw = {}
-    for k in ("state_cap", "depth_cap", "keep_states", "replay_cap", "validate_replays"):
+    for k in ("state_cap", "depth_cap", "keep_states", "replay_cap", "validate_replays", "workers"):
         if k in kw:
             explore_kw[k] = kw.pop(k)
     sysm = HexSys(seed=rep.seed, **kw)
